@@ -163,6 +163,9 @@ class BeltStore(Store):
 
         """
         # Check if there's enough space to reserve
+        if self.reservations_put:
+            # one item enters the belt at a time: the next grant waits until the granted one has been put
+            return
         if self.items:
             if len(self.reservations_put) + len(self.items) +len(self.ready_items) < self.capacity:
                 if not self.noaccumulation_mode_on or (self.noaccumulation_mode_on and self.one_item_inserted==False):
